@@ -63,6 +63,15 @@ def run_case(prog, init, pattern, acc, con, lib, fuel=4000, limit=60000):
     text = '\n'.join(pp(prog))
     case = {'prog': prog, 'init': refval.enc(init), 'pattern': pattern}
     verdict, real, _ = exec_prog.compare_case(prog, init, pattern, acc, 'C01', lib, text=text, case=case, fuel=fuel, limit=limit)
+    if verdict == 'violation' and acc.nviol <= 3:
+        # shrink the violating program (greedy statement deletion while the verdict stays "violation") and report the small one too
+        from ..core import Acc
+
+        def still(p2):
+            return exec_prog.compare_case(p2, init, pattern if pattern is None else list(pattern), Acc('C01'), 'C01', lib, fuel=fuel, limit=limit)[0] == 'violation'
+        small = exec_prog.shrink(prog, still)
+        if len(pp(small)) < len(pp(prog)):
+            exec_prog.compare_case(small, init, pattern, acc, 'C01', lib, case={'prog': small, 'init': refval.enc(init), 'pattern': pattern, 'shrunk': True}, fuel=fuel, limit=limit)
     _drain(con, acc, 'C01', case)
     nontrivial = bool(real and real.get('logs')) and any(k in text for k in ('while ', 'for ', 'if '))
     acc.case((text, repr(sorted(case['init'].items(), key=str)) if isinstance(case['init'], dict) else '', pattern), nontrivial)
@@ -71,6 +80,27 @@ def run_case(prog, init, pattern, acc, con, lib, fuel=4000, limit=60000):
         acc.sample({'program': text.split('\n')[:40], 'init': case['init'], 'pattern': pattern,
                     'result': real['result'], 'log_lines': len(real['logs']), 'first_logs': real['logs'][:5]})
     return verdict
+
+
+def drain_loops(stmts):
+    """while wN < 3 (counter-driven) -> while nx(): with the counter increment removed, so that a loop body can be EMPTY."""
+    out = []
+    for st in stmts:
+        t = st[0]
+        if t == 'while':
+            body = [b for b in drain_loops(st[2]) if not (b[0] == 'assign' and b[1].startswith('w'))]
+            out.append(['while', gen_prog.C('nx'), body])
+        elif t == 'assign' and st[1].startswith('w') and st[2] == gen_prog.N(0):
+            continue
+        elif t == 'if':
+            out.append(['if', [[c, drain_loops(b)] for c, b in st[1]], drain_loops(st[2]) if st[2] is not None else None])
+        elif t == 'for':
+            out.append(['for', st[1], st[2], st[3], drain_loops(st[4])])
+        elif t == 'func':
+            out.append(['func', st[1], st[2], st[3], drain_loops(st[4])])
+        else:
+            out.append(st)
+    return out
 
 
 def run_shard(spec, acc):
@@ -85,6 +115,11 @@ def run_shard(spec, acc):
                 prog = gen_prog.build_shape(chain, scope)
                 for pat in PATTERNS[:spec['patterns']]:
                     run_case(prog, {}, pat, acc, con, lib, fuel=1500, limit=5000)
+                    n += 1
+                if len(chain) <= 2:
+                    # empty bodies: the same shape without its log statements (while loops turn into `while nx():` drains)
+                    bare = gen_prog.strip_logs(drain_loops(prog))
+                    run_case(bare, {}, PATTERNS[(ix + 1) % 2], acc, con, lib, fuel=1500, limit=5000)
                     n += 1
             acc.cover('shape_depths', str(len(chain)))
         acc.count('shape_programs', n)
